@@ -2,7 +2,7 @@
    against the real DefaultStore together with what the code returned, the final database image and the
    write log; [mismatches] lists the cases on which the model disagrees (index, what differs). *)
 From Coq Require Import String Ascii NArith List Bool.
-From Verif Require Import Base.KV Base.Keys Model.Store.
+From Verif Require Import Base.KV Base.Keys Model.Store Model.StoreCaller.
 Import ListNotations.
 Open Scope string_scope.
 
@@ -42,8 +42,9 @@ Fixpoint list_eqb {A} (e : A -> A -> bool) (a b : list A) : bool :=
   end.
 
 Record scase := {
-  sc_hist : list item;
-  sc_outs : list (option out);          (* what the code returned, per item *)
+  sc_hist : list citem;                 (* store calls / reopen / crash / fault (CI) and in-place modifications by the
+                                           caller of the objects it passed to a save or got from a read *)
+  sc_outs : list (option out);          (* what the code returned, per item that is not a modification *)
   sc_image : list (string * sval);      (* final database dump, decoded by key kind *)
   sc_shapes : list (list wshape);       (* the recorded atomic writes, in order *)
   sc_faults : list (list wshape);       (* the write attempts the fault-injecting datastore refused, in order *)
@@ -65,11 +66,12 @@ Definition traw_agrees (m : img) (raw : list N) : bool :=
 (* 1 = results differ, 2 = final image differs, 3 = write log differs, 4 = the refused write attempts differ,
    5 = the bytes of the height record differ *)
 Definition check_case (c : scase) : list N :=
-  let '(m, outs) := run [] (sc_hist c) in
+  let '(st, outs) := crun c_init (sc_hist c) in
+  let m := c_img st in
   (if list_eqb oout_eqb outs (sc_outs c) then [] else [1%N]) ++
   (if image_agrees m (sc_image c) then [] else [2%N]) ++
-  (if list_eqb (list_eqb wshape_eqb) (shapes [] (sc_hist c)) (sc_shapes c) then [] else [3%N]) ++
-  (if list_eqb (list_eqb wshape_eqb) (fault_shapes [] (sc_hist c)) (sc_faults c) then [] else [4%N]) ++
+  (if list_eqb (list_eqb wshape_eqb) (shapes [] (erase (sc_hist c))) (sc_shapes c) then [] else [3%N]) ++
+  (if list_eqb (list_eqb wshape_eqb) (fault_shapes [] (erase (sc_hist c))) (sc_faults c) then [] else [4%N]) ++
   (if traw_agrees m (sc_traw c) then [] else [5%N]).
 
 Fixpoint mismatches_from (i : N) (cs : list scase) : list (N * list N) :=
@@ -83,5 +85,5 @@ Fixpoint mismatches_from (i : N) (cs : list scase) : list (N * list N) :=
 Definition mismatches := mismatches_from 0.
 
 (* which cases are inside the domain of the theorems *)
-Definition in_domain (c : scase) : bool := wf_history (sc_hist c).
+Definition in_domain (c : scase) : bool := wf_history (erase (sc_hist c)).
 Definition count_in_domain (cs : list scase) : N := N.of_nat (List.length (filter in_domain cs)).
